@@ -115,6 +115,7 @@ type genOpts struct {
 	failing     bool  // may emit one naturally failing statement
 	failPct     int   // ... with this probability (default 100)
 	failNested  bool  // instead: one failing operation somewhere nested, guarded by a marker probe
+	litModePct  int   // probability (percent) that the program is "mostly literal": data is read only inside a few chosen kinds of body; and of text-only programs
 	brokenPct   int   // probability (percent) of one syntactically broken tag at top level (the program then fails to parse)
 	brokenKinds []int // restrict broken tags to these catalogue entries (swarm)
 	noise       bool  // multi-line strings / comments between tags (C15)
@@ -143,6 +144,8 @@ type gen struct {
 	nest      int             // > 0 inside any block body or partial
 	siteLog   []*Site         // every site created, in order
 	ctx       []string        // stack of enclosing bodies
+	litOnly   bool            // mostly-literal program
+	dataZones map[string]bool // ... except inside these kinds of body
 	elseIf    bool
 }
 
@@ -288,6 +291,33 @@ func (g *gen) rawExpr(k kind, depth int, class string) string {
 		k = []kind{kInt, kStr, kBool}[g.intn("anykind", 0, 2)]
 	}
 	leaf := depth <= 0 || g.pct("leaf", 35)
+	if g.litOnly {
+		if !g.dataAllowed() {
+			// literal leaves only, but keep operators
+			if leaf || g.pct("litleaf", 50) {
+				switch k {
+				case kInt:
+					return fmt.Sprint(g.intn("lit", 0, 12))
+				case kStr:
+					return strLits[g.intn("slit", 0, len(strLits)-1)]
+				case kBool:
+					return []string{"true", "false", "1 > 2", "2 > 1"}[g.intn("blit", 0, 3)]
+				case kArr:
+					return "[1, 2, 3]"
+				}
+			}
+		} else if leaf {
+			// in a data zone: read the values that differ between data variants
+			switch k {
+			case kInt:
+				return []string{"n1", "xs[0]", "n1 + 1"}[g.intn("dz", 0, 2)]
+			case kStr:
+				return []string{"s1", "rx", `s1 + "!"`}[g.intn("dz", 0, 2)]
+			case kBool:
+				return []string{"n1 > 3", `s1 == "ab<c"`, "n1 == 4"}[g.intn("dz", 0, 2)]
+			}
+		}
+	}
 	switch k {
 	case kInt:
 		if leaf {
@@ -305,6 +335,10 @@ func (g *gen) rawExpr(k kind, depth int, class string) string {
 				}
 				return []string{"obj.N", "obj.Inner.Depth", `m1["n"]`, "xs[1]", "obj.Nums[0]", "(objs[1].Inner.Depth)", `(om["x"].N)`}[g.intn("path", 0, 6)]
 			default:
+				if g.pct("bigint", 6) {
+					// values beyond 32 bits, chosen so that some pairs agree modulo 2^32
+					return []string{"4294967301", "5213240941", "918273645", "4294967295", "8589934597", "1099511627781"}[g.intn("bigv", 0, 5)]
+				}
 				return fmt.Sprint(g.intn("lit", 0, 12))
 			}
 		}
@@ -605,6 +639,20 @@ func (g *gen) nl() {
 	if g.pct("nl", 80) {
 		g.cur.write("\n")
 	}
+}
+
+// dataAllowed: may this expression read context data? Always, except in a
+// mostly-literal program outside its data zones.
+func (g *gen) dataAllowed() bool {
+	if !g.litOnly {
+		return true
+	}
+	for _, c := range g.ctx {
+		if g.dataZones[c] {
+			return true
+		}
+	}
+	return false
 }
 
 func (g *gen) curCtx() string {
@@ -1431,6 +1479,27 @@ func genProgram(t *rapid.T, o genOpts) *Program {
 	p := &Program{Partials: map[string]string{}, Sites: map[int]*Site{}, FeederSites: map[string]*Site{}, Features: map[string]int{}}
 	g := &gen{t: t, o: o, p: p, cur: &tmpl{name: "", line: 1}, cfDefined: map[string]bool{}}
 	p.JS = g.pct("js", 25)
+	if o.litModePct > 0 && g.pct("textonly", o.litModePct/3) {
+		// no code at all
+		g.feat("text_only_program")
+		for i, n := 0, g.size("ntextruns", 1, 4); i < n; i++ {
+			g.text()
+			g.cur.write("plain text\n")
+		}
+		p.Main = g.cur.sb.String()
+		return p
+	}
+	if o.litModePct > 0 && g.pct("litmode", o.litModePct) {
+		g.feat("mostly_literal_program")
+		g.litOnly = true
+		g.o.probes = false
+		g.o.noPartials = true
+		zones := []string{"if-body", "else-if-body", "else-body", "for-body", "fn-body", "block-helper-block", "htmlEscape-block", "contentFor-block", "contentOf-default-block"}
+		g.dataZones = map[string]bool{}
+		for i, n := 0, g.size("nzones", 1, 2); i < n; i++ {
+			g.dataZones[zones[g.intn("zone", 0, len(zones)-1)]] = true
+		}
+	}
 	np := g.size("pieces", 1, o.maxPieces)
 	failAt := -1
 	if o.failPct == 0 {
